@@ -30,3 +30,8 @@ claim("C04", "model_checking", "explicit-state BFS of an asynchronous NPU execut
       "The asynchronous machine (DMA queue, kernel queue, in-order job start/retire, BLOCKDEP window, issue stalls) is explored exhaustively for every op list of length <= 2 (thorough 3) over ~60 ops on aliasing buffers through the public generator on U55-128 and U65-256, and for every stream of the network sweep decoded from the output file; in every reachable state no DMA/kernel-op pair and no pair of in-flight block jobs may conflict (exact per-job footprints).",
       "The hardware model is the one the property statement names, written down in DESIGN.md C04; it is deliberately weak where unsure (no WAR/WAW between pipelined kernel jobs, REDUCE_SUM and convolutions traverse the IFM in depth slices). Streams are bound to the implementation by decoding the emitted words; decoded op sequences are matched 1:1 with the NpuOperation lists (traces_validated_against_impl).",
       "DESIGN.md section 4 C04")
+
+claim("C09", "exploration", "exhaustive enumeration of float32 mantissas / float64 exponents / window sizes / accumulators through the real scaling functions against exact rational arithmetic",
+      "quantise_scale and reduced_quantise_scale are run on all 2^23 float32 mantissas at 3 exponents (thorough: all 68 exponents around the representable range) and on every float64 exponent x 36 mantissas (incl. rounding-up-to-2^31 cases), quantise_pooling_scale on all window sizes 1..65536 with every accumulator an 8-bit window <= 64 (16-bit <= 8; thorough 256/16) can produce, and the elementwise mul/add/sub scale triples on a 40^3 lattice; each result is judged with exact integers/rationals against TFLite's QuantizeMultiplier.",
+      "Hardware range is read as 2^-33 <= s < 2^31 (canonical form exists); for negative accumulators round-half-up is read on the magnitude (ties away from zero, as the TFLite reference average pool); elementwise expressions are evaluated with double-precision operands.",
+      "DESIGN.md section 4 C09")
